@@ -113,7 +113,7 @@ def process_dir(broker, root, graph, context, inventory=None, parallel=False):
     graph = dict((k, v) for k, v in graph.items() if k in dr.COMPONENTS[dr.GROUPS.single])
     if parallel:
         with get_pool(parallel, "insights-run-pool", {"max_workers": None}) as pool:
-            broker = dr.run_all(graph, broker, pool)
+            dr.run_all(graph, broker, pool)
     else:
         broker = dr.run(graph, broker=broker)
     return broker
@@ -150,6 +150,7 @@ def _run(broker, graph=None, root=None, context=None, inventory=None, parallel=F
         if parallel:
             with get_pool(parallel, "insights-run-pool", {"max_workers": None}) as pool:
                 dr.run_all(graph, broker, pool)
+            return broker
         else:
             return dr.run(graph, broker=broker)
 
